@@ -311,7 +311,7 @@ theorem void_all (o : SimOrder) (hi : Inv o) :
     matched, partly cancelled, lapsed — afterwards nothing is matched, nothing remains, and the whole
     requested size is voided. -/
 theorem removal_void_total (w : World) (m : Market) (rsel : Nat) (rhc : Rat) (raf : Option Rat) (o : Order)
-    (hk : o.sim.kind = .limit) (hon : o.sel = rsel ∧ o.hc = rhc) :
+    (hk : o.sim.kind = .limit) (hon : o.market = m.id ∧ o.sel = rsel ∧ o.hc = rhc) :
     let o' := w.removalOnOrder m rsel rhc raf o
     o'.sim.sizeMatched = 0 ∧ o'.sim.matched = [] ∧ o'.sim.sizeCancelled = 0 ∧ o'.sim.sizeLapsed = 0 ∧
     o'.sim.sizeVoided = o.sim.size ∧ o'.sim.sizeRemaining = 0 := by
